@@ -486,6 +486,7 @@ pub fn c01(o: &Opts, t: &mut Tracer) -> Value {
     let mut rng = rng_for(o.seed, 0xC01);
     let ncases = if o.quick() { 120 } else { 6000 };
     let mut runs = 0u64;
+    let mut logging_available = false;
     for ci in 0..ncases {
         let method = ["GET", "HEAD", "POST", "PUT", "GET", "POST"][ci % 6];
         let body_m = matches!(method, "POST" | "PUT");
@@ -496,6 +497,11 @@ pub fn c01(o: &Opts, t: &mut Tracer) -> Value {
         let expect = body_m && ci % 4 == 1;
         let mut rq = RqCfg { method: method.into(), ver10, expect, connclose: ci % 17 == 0, despite: false,
                              framing: match framing { "cl" => "cl2".into(), "chunked" => "chunked".into(), _ => "default".into() }, conn_other: None, expect_extra: false };
+        // the log sink formats every byte that passes: on for a quarter of the cases, off for the rest (set in main.rs)
+        if log::max_level() != log::LevelFilter::Off || logging_available {
+            logging_available = true;
+            log::set_max_level(if ci % 4 == 0 { log::LevelFilter::Trace } else { log::LevelFilter::Off });
+        }
         MANY_FIELDS.with(|x| x.set(if ci % 8 == 5 { [40usize, 100, 33, 120][(ci / 8) % 4] } else { 0 }));
         if ci % 8 == 5 {
             t.class("c01:response-with-many-fields");
@@ -634,6 +640,16 @@ pub fn c01(o: &Opts, t: &mut Tracer) -> Value {
                 }
             }
         }
+        if total > 60_000 {
+            // a body of 100 kB is not read byte by byte: tiny read buffers are covered by the small streams
+            for s in scheds.iter_mut() {
+                for r in s.read_sizes.iter_mut() {
+                    if *r < 512 {
+                        *r += 4096;
+                    }
+                }
+            }
+        }
         for s in &scheds {
             runs += 1;
             t.ev(json!({"ev":"run","sched":s.name}));
@@ -660,5 +676,8 @@ pub fn c01(o: &Opts, t: &mut Tracer) -> Value {
     crate::flowbox::REPEATED_HEADERS.with(|x| x.set(false));
     MANY_FIELDS.with(|x| x.set(0));
     VIA_REDIRECT.with(|x| x.set(false));
+    if logging_available {
+        log::set_max_level(log::LevelFilter::Trace);
+    }
     json!({"runs": runs})
 }
